@@ -76,22 +76,32 @@ func (rw *raceWatch) fresh() []raceReport {
 				ok = false // the harness looking at server memory: not a race of the program
 				break
 			}
+			// the access site: the innermost frame inside the program under test.
+			// Frames of libraries it calls into (protobuf marshalling a message
+			// another thread is writing, ...) are walked through; a harness frame
+			// below them means the access is the harness's own (pipe buffers,
+			// oracles, client pumps).
 			site := ""
 			for _, l := range lines[hdr+1:] {
 				l = strings.TrimSpace(l)
 				if l == "" || strings.HasPrefix(l, "/") {
 					continue
 				}
-				if strings.HasPrefix(l, "runtime.") || strings.HasPrefix(l, "sync.") || strings.HasPrefix(l, "sync/atomic.") || strings.HasPrefix(l, "internal/") {
-					continue
+				if i := strings.LastIndex(l, "("); i > 0 {
+					l = l[:i]
 				}
-				site = l
-				break
+				if strings.HasPrefix(l, "verif/vrt/vatomic") {
+					continue // the shim standing in for sync/atomic: the access is the program's
+				}
+				if strings.HasPrefix(l, "verif/") {
+					break
+				}
+				if strings.HasPrefix(l, "github.com/aukilabs/hagall") || strings.HasPrefix(l, "golang.org/x/net/websocket") {
+					site = l
+					break
+				}
 			}
-			if i := strings.LastIndex(site, "("); i > 0 {
-				site = site[:i]
-			}
-			if !strings.HasPrefix(site, "github.com/aukilabs/hagall") && !strings.HasPrefix(site, "golang.org/x/net/websocket") {
+			if site == "" {
 				ok = false // access made by harness code (pipe buffers, oracles)
 				break
 			}
